@@ -30,7 +30,7 @@ RULE = ('histories of 6-30 steps; a step is a call (select, iselect, select_one,
         '<meta>, :default, :indeterminate, :dir, :checked, :root) and to class/attribute selectors on string-valued '
         'class attributes, targets = document and random elements; documents = generated form documents (0-3 forms, '
         'nested forms, radio groups, iframes, twins) and generic trees, built by the bs4 API or parsed by four '
-        'parsers.  Every call is judged by the three monitors.  Non-trivial = a call whose result is non-empty / '
+        'parsers.  In namespaced histories the caller keeps one namespaces dict that it refills before each query and re-uses compiled objects it made earlier (the twin compiles afresh from a copy).  Every call is judged by the three monitors.  Non-trivial = a call whose result is non-empty / '
         'True; distinct = distinct (selector, op, document shape).')
 ASSUMPTIONS = [
     'a freshly materialised copy of the same recipe with the same parser is the pristine twin',
@@ -46,6 +46,7 @@ MEMO = [':lang("")', ':lang(en)', ':lang("*-US")', ':lang(de, fr)', ':default', 
 OPS = ['select', 'select', 'select', 'iselect', 'select_one', 'match', 'match', 'filter', 'closest']
 NS1, NS2 = 'urn:verif:one', 'urn:verif:two'
 NSMAP = {'p1': NS1, 'p2': NS2}
+NSMAPS = [NSMAP, NSMAP, {'p1': NS2, 'p2': NS1}, {'p1': NS1}, {'p1': NS1, 'p2': NS2, '': NS1}]
 NS_MEMO = ['p1|*:not(:checked)', 'p1|a, :disabled', ':is(:link, p2|b)', 'p1|p:not(:default) ~ p2|*', 'p2|*:not(:enabled) p1|*', ':not(:read-write, p1|*)',
            'p1|*', 'p2|span.x', ':required, p1|li', 'p1|*:not(:dir(ltr))', ':indeterminate, :in-range, p2|*', '*|*:not(:checked):first-child']
 
@@ -136,9 +137,25 @@ def els_of(soup):
     return [e for e in soup.descendants if isinstance(e, bs4.Tag)]
 
 
-def do_op(sv, op, sel, tgt, compiled, nsmap=None):
+def do_op(sv, op, sel, tgt, compiled, nsmap=None, state=None):
+    """state (history side only): {'live': dict, 'kept': {}} - the caller keeps ONE dict object for its namespaces, refills it
+    before each query, and keeps the compiled objects it made earlier; the pristine twin passes a fresh dict each time."""
     if nsmap is not None:
-        c = sv.compile(sel, nsmap)
+        if state is not None:
+            live, kept = state['live'], state['kept']
+            key = (sel, tuple(sorted(nsmap.items())))
+            if compiled and key in kept:
+                c = kept[key]              # compiled earlier, when `live` held exactly this map; `live` was refilled since
+                state['reused'] = state.get('reused', 0) + 1
+            else:
+                live.clear()
+                live.update(nsmap)
+                nsmap = live
+                c = sv.compile(sel, live)
+                if compiled:
+                    kept[key] = c
+        else:
+            c = sv.compile(sel, nsmap)
         f = {'select': c.select, 'iselect': lambda t: list(c.iselect(t)), 'select_one': c.select_one, 'match': c.match,
              'filter': c.filter, 'closest': c.closest}[op] if compiled else None
         if f is not None:
@@ -224,6 +241,7 @@ def run_history(sv, rng, tops, how, steps, trap, stats):
     index = {id(e): i for i, e in enumerate(els)}
     index[id(soup)] = 'doc'
     edits_done = []
+    state = {'live': {}, 'kept': {}}
     for si, step in enumerate(steps):
         if step[0] == 'edit':
             apply_edit(soup, step[1])
@@ -242,7 +260,7 @@ def run_history(sv, rng, tops, how, steps, trap, stats):
         ser_before = soup.decode()
         trap.events.clear()
         trap.armed = True
-        st, r = monitors.guarded_call(do_op, sv, op, sel, tgt, compiled, nsmap)
+        st, r = monitors.guarded_call(do_op, sv, op, sel, tgt, compiled, nsmap, state)
         trap.armed = False
         stats['calls'] = stats.get('calls', 0) + 1
         if st != 'ok':
@@ -294,6 +312,7 @@ def run_history(sv, rng, tops, how, steps, trap, stats):
                         sel, 'contains' if index[id(e)] in members else 'omits', index[id(e)], e.name, m),
                         'monitor': 'b', 'step': si, 'class': sig('select-vs-match', sel)})
                     return out
+    stats['kept_compiled_reused'] = stats.get('kept_compiled_reused', 0) + state.get('reused', 0)
     return out
 
 
@@ -343,7 +362,7 @@ def gen_steps(rng, n_els, ns=False, edits=True):
         nsmap = None
         if ns and rng.random() < .6:
             sel = rng.choice(NS_MEMO)
-            nsmap = dict(NSMAP)
+            nsmap = dict(rng.choice(NSMAPS))
         steps.append((rng.choice(OPS), sel, None if rng.random() < .5 else rng.randrange(10 ** 6), rng.random() < .4, nsmap))
         if edits and rng.random() < .15:
             steps.append(('edit', gen_edit(rng)))
